@@ -28,6 +28,8 @@ L20 == {<<"tick">>, <<"nmt", 130, 5>>, <<"nmt", 129, 0>>, <<"nmt", 1, 5>>, <<"nm
 L20Q == {<<"tick">>, <<"nmt", 130, 5>>, <<"nmt", 1, 5>>, <<"hb", 10, 5>>, <<"sdowr", 4119, 0, <<3, 0>>>>, HcW(2, 11, 2), <<"apptmr", 1, 2, 2>>, <<"emcyset">>}
 P20 == << <<"pool">>, <<"nmt", 130, 5>>, <<"pool">>, <<"getmode">>, <<"hbev", 10>>, <<"hblast", 10>>, <<"tick">>, <<"tick">>, <<"tick">>, <<"pool">>, <<"hb", 10, 5>>, <<"hb", 11, 5>>, <<"hb", 12, 5>>, <<"pool">>,
           <<"tick">>, <<"tick">>, <<"tick">>, <<"tick">>, <<"hbev", 10>>, <<"hbev", 11>>, <<"emcyset">>, <<"nmt", 129, 0>>, <<"pool">>, <<"tick">>, <<"tick">>, <<"tick">>, <<"emcyset">>, <<"pool">> >>
+LNone == {}
+EmitPump11 == EmitPump(10, 2, {1, 3, 254, 255, 256, 257, 300, 511, 512, 600})
 HC20 == << <<10, 2>>, <<0, 0>> >>
 HC09 == << <<10, 2>> >>
 HC10 == << <<10, 3>> >>
